@@ -215,6 +215,36 @@ def doc_literal(where, o1, o2, name_idx):
     return add_messages(d)
 
 
+def doc_aliasfam(kind, extra, used):
+    """a new type alias of every shape the metamodel uses (T | T[] with and without further alternatives, unions of
+    bases / references, array, reference, base), referenced from a property or only declared"""
+    d = base_doc()
+    P = {"kind": "reference", "name": "P"}
+    O = {"kind": "reference", "name": "Other"}
+    if kind == 0:
+        items = [P, {"kind": "array", "element": P}]
+    elif kind == 1:
+        items = [{"kind": "array", "element": O}, O]
+    elif kind == 2:
+        items = [{"kind": "base", "name": "string"}, {"kind": "base", "name": "integer"}]
+    elif kind == 3:
+        items = [P, O]
+    else:
+        items = None
+    if items is not None:
+        items = items + [[], [{"kind": "base", "name": "null"}], [{"kind": "base", "name": "boolean"}], [{"kind": "reference", "name": "Kind"}, {"kind": "base", "name": "null"}]][extra]
+        t = {"kind": "or", "items": items}
+    else:
+        t = [{"kind": "array", "element": P}, O, {"kind": "base", "name": "string"}][kind - 4]
+    d["typeAliases"].append({"name": "EvoAlias", "type": t})
+    d["structures"].append({"name": "P", "properties": [{"name": "id", "type": {"kind": "base", "name": "integer"}}]})
+    props = [{"name": "id", "type": {"kind": "base", "name": "integer"}}]
+    if used:
+        props.append({"name": "value", "type": {"kind": "reference", "name": "EvoAlias"}, **({"optional": True} if used == 2 else {})})
+    d["structures"].append({"name": "Q", "properties": props})
+    return add_messages(d, params="Q")
+
+
 # ---------------------------------------------------------------- oracles per plugin (return list of problems)
 _FINDINGS = None
 
@@ -496,7 +526,7 @@ def evaluate(plugin, doc, prop=None):
     return (["%s: %s of %s: expected %r, emitted %r" % (plugin, k[-1], ".".join(str(x) for x in k[:-1] if x != ""), w, g) for k, w, g in new[:8]], known)
 
 
-FAMILY_RANGES = {"types": [NSHAPE, len(BASES), 3, 3, len(NAMES)], "marks": [2] * 8, "messages": [2, 2, 3, 3, 2, 4], "graph": [3] * 6, "enum": [3, 3, 2, 3], "literal": [3, 2, 2, len(NAMES)]}
+FAMILY_RANGES = {"types": [NSHAPE, len(BASES), 3, 3, len(NAMES)], "marks": [2] * 8, "messages": [2, 2, 3, 3, 2, 4], "graph": [3] * 6, "enum": [3, 3, 2, 3], "literal": [3, 2, 2, len(NAMES)], "alias": [7, 4, 3]}
 
 
 def _concretize(f, n):
@@ -510,7 +540,7 @@ def _concretize(f, n):
     raise AssertionError("flag outside its range")
 
 
-DOCS = {"types": doc_types, "marks": doc_marks, "messages": doc_messages, "graph": doc_graph, "enum": doc_enum, "literal": doc_literal}
+DOCS = {"alias": doc_aliasfam, "types": doc_types, "marks": doc_marks, "messages": doc_messages, "graph": doc_graph, "enum": doc_enum, "literal": doc_literal}
 
 
 def tiny_ok(family, plugin, *flags):
@@ -607,6 +637,7 @@ def tiny_lemmas(plugins, tier):
             add(plugin, "graph", "e%d" % e32, ["e31", "e30", "e21", "e20", "e10"], [3] * 5, "%d, e31, e30, e21, e20, e10" % e32, {"e32": e32})
         add(plugin, "enum", "all", ["base", "custom", "pv", "use"], [3, 3, 2, 3], "base, custom, pv, use", {})
         add(plugin, "literal", "all", ["where", "o1", "o2", "name_idx"], [3, 2, 2, len(NAMES)], "where, o1, o2, name_idx", {})
+        add(plugin, "alias", "all", ["kind", "extra", "used"], [7, 4, 3], "kind, extra, used", {})
     return L
 
 
